@@ -12,6 +12,7 @@ guarded by a text comparison.
 import PrimaiteModel.Model.FileSystemLoader
 import PrimaiteModel.Lemmas.FileSystemOps
 import PrimaiteModel.Props.C15Api
+import PrimaiteModel.Props.C15Health
 import PrimaiteModel.Gen.FileSystemMethods
 namespace Primaite.FileSystem
 open Gen.FileSystemMethods
@@ -315,6 +316,78 @@ theorem C15_gen_create_file_request {s : State} (h : Inv s) (F x : Name) (force 
       have : ¬ (fsCreateFile s x F force).2 = none := fun hn => by simpa using hiff.mp hn
       simp only [this, if_false]
       exact Prod.ext rfl (createFileIn_out s1 g x)
+
+/-! ### the uuid-keyed API, `remove_all_files`, `copy_file` (second batch) -/
+
+theorem fsGetFolderById_false (s : State) (i : Nat) : fsGetFolderById s i false = s.folders.find? (fun g => g.id == i) := rfl
+theorem folderGetFileById_false (g : Folder) (i : Nat) : folderGetFileById g i false = g.files.find? (fun f => f.id == i) := rfl
+
+/-- `dict.get(uuid)` lookups as translated: live dictionary only by default; with `include_deleted` the deleted dictionary first. -/
+theorem C15_gen_by_id_lookups (s : State) (g : Folder) (i : Nat) :
+    folderGetFileById g i false = g.files.find? (fun f => f.id == i) ∧
+    folderGetFileById g i true = (g.deletedFiles.find? (fun f => f.id == i)).or (g.files.find? (fun f => f.id == i)) ∧
+    fsGetFolderById s i false = s.folders.find? (fun g => g.id == i) ∧
+    fsGetFolderById s i true = (s.deletedFolders.find? (fun g => g.id == i)).or (s.folders.find? (fun g => g.id == i)) := by
+  unfold folderGetFileById fsGetFolderById
+  refine ⟨rfl, ?_, rfl, ?_⟩
+  · cases g.deletedFiles.find? (fun f => f.id == i) <;> simp
+  · cases s.deletedFolders.find? (fun g => g.id == i) <;> simp
+
+/-- `Folder.remove_all_files` (the loop that flags every live file and stores it among the deleted ones, then `files = {}`) and
+`Folder.remove_file_by_id` as translated are the model's: the latter raises exactly for a uuid that is not live in the folder. -/
+theorem C15_gen_remove_all_and_by_id (g : Folder) (j : Nat) :
+    folderRemoveAllFiles g = g.removeAllFiles ∧
+    folderRemoveFileById g j =
+      (match g.files.find? (fun f => f.id == j) with
+       | none => (g, false)
+       | some f => (g.removeFile f, true)) := by
+  refine ⟨rfl, ?_⟩
+  unfold folderRemoveFileById
+  rw [folderGetFileById_false]
+  cases g.files.find? (fun f => f.id == j) <;> rfl
+
+/-- `delete_file_by_id` / `delete_folder_by_id` as translated — calling the translated `delete_file` / `delete_folder` with the NAMES
+of what the uuids denote — are the model's API operations: the first never raises, the second raises exactly for a uuid that is not
+a live folder's. -/
+theorem C15_gen_delete_by_id (s : State) (i j : Nat) :
+    (fsDeleteFileById s i j).1 = (apiDeleteFileById s i j).1 ∧ (fsDeleteFileById s i j).2 = true ∧
+    (fsDeleteFolderById s i).1 = (apiDeleteFolderById s i).1 ∧
+    ((fsDeleteFolderById s i).2 = false ↔ (apiDeleteFolderById s i).2 = .raised) := by
+  unfold fsDeleteFileById fsDeleteFolderById apiDeleteFileById apiDeleteFolderById
+  simp only [fsGetFolderById_false, folderGetFileById_false]
+  refine ⟨?_, ?_, ?_, ?_⟩
+  · cases s.folders.find? (fun g => g.id == i) with
+    | none => rfl
+    | some g =>
+      dsimp only
+      cases g.files.find? (fun f => f.id == j) with
+      | none => rfl
+      | some f => exact (C15_gen_fs_delete_restore_file s g.name f.name).1
+  · cases s.folders.find? (fun g => g.id == i) with
+    | none => rfl
+    | some g => dsimp only; cases g.files.find? (fun f => f.id == j) <;> rfl
+  · cases s.folders.find? (fun g => g.id == i) with
+    | none => rfl
+    | some g => exact (C15_gen_restore_delete_folder s g.name).2.2.1
+  · cases s.folders.find? (fun g => g.id == i) <;> simp
+
+/-- A forced `add_file` (translated) never raises and is the model's `addFileForced`. -/
+theorem folderAddFile_forced (g : Folder) (f : File) : folderAddFile g f true = some (g.addFileForced f) := by
+  rw [C15_gen_add_file]; unfold Folder.addFileApi; simp
+
+/-- **`FileSystem.copy_file` as translated is the model's `apiCopyFile`** (state; it never raises): nothing happens without a live
+source; otherwise the copy gets a FRESH uuid, the destination folder is found or made by the translated `create_folder`, the
+creation is counted, and the forced `add_file` (translated) replaces a live namesake instead of standing beside it. -/
+theorem C15_gen_copy_file (s : State) (F x G : Name) :
+    (fsCopyFile s F x G).1 = (apiCopyFile s F x G).1 ∧ (fsCopyFile s F x G).2 = true := by
+  unfold fsCopyFile apiCopyFile getOrCreateFolder
+  rw [(C15_gen_get_file s F x false).2]
+  cases getFile s F x with
+  | none => exact ⟨rfl, rfl⟩
+  | some f =>
+    cases hG : getFolder s G false with
+    | some g => simp [hG, folderAddFile_forced, updFolder]
+    | none => simp [hG, folderAddFile_forced, updFolder, C15_gen_create_folder]
 
 /-! ### the counter resets -/
 
